@@ -102,9 +102,12 @@ class LoggerFileProxy:
             self.bufs.append(buf)
 
     def flush(self):
-        if self.bufs:
-            self.logger_func('\n'.join([f'{self.prefix}{buf}' for buf in self.bufs]))
-            self.bufs = []
+        # Take the buffered writes before emitting them, so that
+        # anything written while they are being emitted (e.g. by
+        # another thread of the task) is kept for the next flush.
+        bufs, self.bufs = self.bufs, []
+        if bufs:
+            self.logger_func('\n'.join([f'{self.prefix}{buf}' for buf in bufs]))
 
 
 def ensure_dict_key_str(value, *, exception_type: Type[Exception]) -> str:
